@@ -63,10 +63,11 @@ template <class T> static void queries (const Frustum<T>& F, Gen<T>& g, int prog
         }
         r.raw ("eq", jints (eq, 9)); r.raw ("ne", jints (ne, 9)); r.emit ();
     }
-    for (int k = 0; k < 3; ++k)
+    for (int k = 0; k < 4; ++k)
     {
-        // a point in front of the camera, anywhere around the window
-        T z = -(F.nearPlane () + (F.farPlane () - F.nearPlane ()) * T (g.rng.range (0, 8)) / T (8)) * (k == 2 ? T (3) : T (1));
+        // a point in front of the camera, anywhere around the window (k == 3: behind the eye plane, where the homogeneous
+        // weight of  point * projectionMatrix  is negative)
+        T z = -(F.nearPlane () + (F.farPlane () - F.nearPlane ()) * T (g.rng.range (0, 8)) / T (8)) * (k == 2 ? T (3) : (k == 3 ? T (-1) : T (1)));
         T sx = F.orthographic () ? T (1) : -z / F.nearPlane ();
         Vec3<T> p ((F.left () + (F.right () - F.left ()) * T (g.rng.range (-2, 10)) / T (8)) * sx, (F.bottom () + (F.top () - F.bottom ()) * T (g.rng.range (-2, 10)) / T (8)) * sx, z);
         Vec2<T> s = F.projectPointToScreen (p);
